@@ -123,7 +123,9 @@ def build_cdata(v):
         m['stack'] = [p[1] for p in pairs]
         lstack = [p[0] for p in pairs]
         if v.get('stack_form') == 'cell':
-            lstack = VmStack.serialize(lstack)
+            ok, pre = call(VmStack.serialize, list(lstack))
+            if ok:
+                lstack = pre      # (a refusal here shows up when the same values are serialised as part of the stack)
     if v.get('save'):
         pairs = {int(k): build(x) for k, x in v['save'].items()}
         m['save'] = {k: p[1] for k, p in pairs.items()}
@@ -142,7 +144,7 @@ def cdata_from_model(m):
     return VmControlData('vm_ctl_data', nargs=m['nargs'], stack=lstack, save=lsave, cp=m['cp'])
 
 
-def lib_norm_cdata(v):
+def lib_norm_cdata(v, _seen=()):
     st = getattr(v, 'stack', None)
     if isinstance(st, Cell):
         try:
@@ -155,8 +157,8 @@ def lib_norm_cdata(v):
     if sv is not None and not isinstance(sv, dict):
         sv = {0: ('?', repr(sv))}
     return (('cp', getattr(v, 'cp', None)), ('nargs', getattr(v, 'nargs', None)),
-            ('save', tuple(sorted((int(k), lib_norm(x)) for k, x in sv.items())) if sv else None),
-            ('stack', tuple(lib_norm(x) for x in st) if st is not None else None))
+            ('save', tuple(sorted((int(k), lib_norm(x, _seen)) for k, x in sv.items())) if sv else None),
+            ('stack', tuple(lib_norm(x, _seen) for x in st) if st is not None else None))
 
 
 def build_cont(c):
@@ -197,19 +199,23 @@ def lib_norm(v, _seen=()):
     if isinstance(v, VmTuple):
         return ('tuple', tuple(lib_norm(x) for x in v.list))
     if isinstance(v, VmCont):
-        return ('cont', lib_norm_cont(v))
+        if len(_seen) > 64:
+            return ('nesting-too-deep',)
+        return ('cont', lib_norm_cont(v, _seen + (id(v),)))
     return ('?', repr(v))
 
 
-def lib_norm_cont(c):
+def lib_norm_cont(c, _seen=()):
+    if len(_seen) > 64:
+        return ('nesting-too-deep',)
     out = {'t': c.type_[4:] if c.type_.startswith('vmc_') else c.type_}
     for k, v in vars(c).items():
         if k == 'type_':
             continue
         if isinstance(v, VmCont):
-            out[k] = lib_norm_cont(v)
+            out[k] = lib_norm_cont(v, _seen + (id(c),))
         elif isinstance(v, VmControlData):
-            out[k] = lib_norm_cdata(v)
+            out[k] = lib_norm_cdata(v, _seen + (id(c),))
         elif isinstance(v, Slice):
             out[k] = ('slice', to01(v.bits), tuple(r.hash.hex() for r in v.refs[v.ref_offset:]))
         else:
@@ -452,6 +458,33 @@ class VmWorld(HistoryWorld):
             self.V(ctx, 'parsed-values-not-serialisable', 'serialize-of-parsed', klass, 'the values returned by VmStack.deserialize cannot be serialised again: %r' % (c2,))
         elif c2.hash != cell.hash:
             self.V(ctx, 'parsed-values-serialise-differently', 'serialize-of-parsed', klass, 'serialising the parsed values gives another cell than the one they were parsed from')
+        # the receiver reads from the slices and writes to the builders it was handed (they are its values now); the cell it parsed
+        # them from is still the same value: parsing it again returns the same stack
+        used = [0]
+
+        def use(v, depth=0):
+            if isinstance(v, Slice):
+                if v.remaining_bits:
+                    call(v.load_bits, min(v.remaining_bits, 9))
+                    used[0] += 1
+                if v.remaining_refs:
+                    call(v.load_ref)
+                    used[0] += 1
+            elif isinstance(v, Builder):
+                if v.available_bits:
+                    call(v.store_bit, 1)
+                    used[0] += 1
+            elif isinstance(v, VmTuple) and depth < 6:
+                for x in list(v.list):
+                    use(x, depth + 1)
+        for v in vals:
+            use(v)
+        if used[0]:
+            ctx.probe('receiver-consumes-parsed-values-then-parses-again')
+            ok, vals2 = call(lambda: VmStack.deserialize(cell.begin_parse()))
+            ctx.evaluated(1)
+            if not ok or [lib_norm(v) for v in vals2] != want:
+                self.V(ctx, 'second-parse-differs', 'deserialize', klass, 'after the receiver read from the values of the first parse, parsing the same cell again gave %s' % (str(vals2)[:160],))
 
     def shrink_op(self, op):
         if op['op'] == 'push':
